@@ -334,31 +334,60 @@ def run_queue(chk: Check, mr: ModelRun):
             path = tmp / f'g{it}.jsonl'
             q = PacketzQueue(path=path)
             ops, ids, sent, delivered, gens, live = [], {}, [], [], [], []
-            for _ in range(rng.randint(2, 12)):
-                r = rng.random()
-                if r < 0.35:
+            def do(op):
+                if op == 'send':
                     pkt = q.send(to='r', data=gen_payload(rng))
                     if pkt.id in ids:
                         chk.count('queue.id_collisions')
                     ids.setdefault(pkt.id, len(ids) + 1)
                     sent.append(ids[pkt.id])
                     ops.append([Atom('send'), [Atom('good'), ids[pkt.id]]])
-                elif r < 0.42:
+                elif op == 'corrupt':
                     with path.open('at', encoding='utf-8') as f:
                         f.write('not a packet at all\n')
                     ops.append([Atom('send'), Atom('corrupt')])
-                elif r < 0.6 or not gens:
+                elif op == 'open':
                     gens.append(iter(q.receive()))
                     live.append(True)
                     ops.append(Atom('open'))
                 else:
-                    j = rng.randrange(len(gens))
+                    j = op[1]
                     ops.append([Atom('next'), j])
                     try:
                         pkt = next(gens[j])
                         delivered.append(ids.get(pkt.id, -1))
+                        return True
                     except StopIteration:
                         live[j] = False
+                        return False
+                return None
+
+            if it % 3 == 0:
+                # one generator is suspended part-way, another drains the queue to its end, the first is resumed
+                chk.count('queue.generators.suspend-drain-resume')
+                for _ in range(rng.randint(2, 6)):
+                    do(rng.choice(['send', 'send', 'send', 'corrupt']))
+                do('open')
+                for _ in range(rng.randint(0, 2)):
+                    do(('next', 0))
+                do('open')
+                while do(('next', 1)):
+                    pass
+                for _ in range(rng.randint(0, 2)):
+                    do('send')
+                while do(('next', 0)):
+                    pass
+            else:
+                for _ in range(rng.randint(2, 12)):
+                    r = rng.random()
+                    if r < 0.35:
+                        do('send')
+                    elif r < 0.42:
+                        do('corrupt')
+                    elif r < 0.6 or not gens:
+                        do('open')
+                    else:
+                        do(('next', rng.randrange(len(gens))))
             # drain with a fresh generator: nothing may be left or repeated
             ops.append(Atom('open'))
             gens.append(iter(q.receive()))
